@@ -109,6 +109,8 @@ func (t rawToken) Serialize() (string, error) { return "", errors.New("raw token
 
 type Books struct {
 	c       *Ctx
+	signedKind map[string]string // B_ -> kind of the operation in which it was signed
+	behind  map[string]string // (wallet/keyset) whose stored counter is behind -> signature of the first detection
 	net     *Net
 	mints   []*bMint
 	wallets []*bWallet
@@ -161,7 +163,7 @@ type Books struct {
 func NewBooks(c *Ctx) *Books {
 	b := &Books{c: c, net: NewNet(), signed: map[string]int{}, submitted: map[string]int{}, byB: map[string]outRef{},
 		yCache: map[string]string{}, pendGhost: map[int]map[string]string{}, faulted: map[int]bool{},
-		snaps: map[int]*wSnap{}, dirty: map[int]bool{}, taint: map[string]bool{}, meltPaid: map[string]int64{}}
+		snaps: map[int]*wSnap{}, dirty: map[int]bool{}, taint: map[string]bool{}, meltPaid: map[string]int64{}, behind: map[string]string{}, signedKind: map[string]string{}}
 	b.bySecret = map[string]outRef{}
 	b.killAt, b.killAfter = -1, -1
 	b.net.Install()
@@ -588,6 +590,11 @@ func (b *Books) scanLog() {
 					b.c.Hist("after-fault", "resubmitted-signed-output/"+b.opKind)
 					continue
 				}
+				if k := b.signedKind[o.B_]; strings.HasPrefix(k, "receive-trusted") && strings.Contains(k, "sigall") {
+					// root cause: that output was signed in the SIG_ALL swap of swapToTrusted, which never advances the counter
+					sig = "C19/swapToTrusted/sigall-swap-counter-not-advanced"
+					what += "; it was signed in the SIG_ALL swap of a swap-to-trusted receive, which derives its outputs from the stored counter and does not advance it"
+				}
 				if foreign[o.Id] || b.taint[o.B_] {
 					sig = "C19/swapToTrusted/foreign-keyset-counter"
 					what += "; it was derived for a keyset that was not in the wallet's store (swapToTrusted of a SIG_ALL token builds its swap outputs for the token mint's keyset: counter read as 0, never advanced)"
@@ -620,6 +627,7 @@ func (b *Books) scanLog() {
 			for i := range resp.Signatures {
 				if i < len(req.Outputs) {
 					b.signed[req.Outputs[i].B_] = b.opIdx
+					b.signedKind[req.Outputs[i].B_] = b.opKind
 				}
 			}
 			mi.mintedIn += outSum
@@ -629,6 +637,7 @@ func (b *Books) scanLog() {
 			for i := range resp.Signatures {
 				if i < len(req.Outputs) {
 					b.signed[req.Outputs[i].B_] = b.opIdx
+					b.signedKind[req.Outputs[i].B_] = b.opKind
 					if foreign[req.Outputs[i].Id] {
 						b.taint[req.Outputs[i].B_] = true
 					}
@@ -641,6 +650,7 @@ func (b *Books) scanLog() {
 			for i := range resp.Change {
 				if i < len(req.Outputs) {
 					b.signed[req.Outputs[i].B_] = b.opIdx
+					b.signedKind[req.Outputs[i].B_] = b.opKind
 				}
 			}
 			mi.meltIn[req.Quote] = inSum
@@ -954,6 +964,9 @@ func (b *Books) counterMonitor(w *bWallet, s *wSnap) {
 				maxSigned = n
 			}
 		}
+		if maxSigned < int(ctr) {
+			delete(b.behind, fmt.Sprintf("%d/%s", w.idx, id))
+		}
 		if maxSigned >= int(ctr) {
 			sig := "C19/counter-behind/" + b.opKind
 			what := fmt.Sprintf("%s: stored counter of %s is %d but the mint has signed the output of counter %d (after op %d %s)", w.name, b.ksName(id), ctr, maxSigned, b.opIdx, b.opKind)
@@ -964,6 +977,19 @@ func (b *Books) counterMonitor(w *bWallet, s *wSnap) {
 			case id != b.mints[mi].env.ActiveKeysetId():
 				sig = "C19/rotation/stale-counter-written-back"
 				what += "; the keyset is no longer active: getActiveKeyset saved its in-memory copy of the keyset (counter as of LoadWallet / AddMint) over the stored one when it noticed the rotation"
+			case strings.HasPrefix(b.opKind, "receive-trusted") && strings.Contains(b.opKind, "sigall"):
+				// F13, keyset in the store: the SIG_ALL branch of swapToTrusted swaps at the token's mint with outputs
+				// derived from the stored counter and never calls IncrementKeysetCounter
+				sig = "C19/swapToTrusted/sigall-swap-counter-not-advanced"
+				what += "; swapToTrusted of a SIG_ALL token swapped at the token's mint with outputs derived from this counter and did not advance it"
+			}
+			// the counter stays behind until something advances it past the signed outputs: later detections on the same
+			// (wallet, keyset) are the same event, not a new one
+			key := fmt.Sprintf("%d/%s", w.idx, id)
+			if prev, ok := b.behind[key]; ok {
+				sig = prev
+			} else {
+				b.behind[key] = sig
 			}
 			b.c.MonitorFail("C19", sig, what, b.replay())
 			b.c.Hist("counter-behind", sig)
